@@ -10,6 +10,26 @@ COMMON_NOTE = ("Trusted base: pyvc engine (AST transform T1-T3 of the real sourc
                "lift to C), A3 (integer powers), A4 (path forking via z3), A5 (numpy shim contracts, listed per run in evidence.trusted_base). ")
 
 CLAIMED = {
+    "C31": dict(
+        category="proof",
+        text=("Ground, exhaustive: both 14x14 rotation tables (row orthogonality, invertibility, every row equal to its documented flavour combination, "
+              "label/pid/sector-map consistency) and, for nf 3-6 x {QCD, QED} x every sector label of the basis, the sector projector computed by the "
+              "real code in exact rational arithmetic: members map source onto target, every other distribution of the nf-flavour basis is annihilated, "
+              "diagonal projectors idempotent, mutually orthogonal and complete on the active parton space; ad_projectors returns one per sector. "
+              "Three defects repaired (fix commits), one (odd-nf Sdelta/Vdelta weights) reported as KNOWN-FINDING."),
+        note=COMMON_NOTE + "No symbolic input: the quantifier's domain is finite and enumerated completely; each fact is decided by exact evaluation (Fractions through the transformed code). The label specification is typed in the contract.",
+        technique="contract-based verification by exhaustive exact evaluation of a finite domain through the transformed real code",
+        design_ref="DESIGN.md section 2, C31",
+    ),
+    "C33": dict(
+        category="proof",
+        text=("Ground, exhaustive over nf 4-6 x {QCD, QED}: rotate_matching read as a matrix reproduces the flavour content of every new-basis label from the "
+              "matching basis (old evolution basis + heavy-quark +- combinations, nf-dependent Sdelta/Vdelta weights), rotate_matching_inverse composes with "
+              "it to the identity in both orders, and the key sets are exactly products of labels of the two bases."),
+        note=COMMON_NOTE + "Finite domain enumerated completely in exact rational arithmetic; flavour contents typed in the contract from the label definitions.",
+        technique="contract-based verification by exhaustive exact evaluation of a finite domain through the transformed real code",
+        design_ref="DESIGN.md section 2, C33",
+    ),
     "C15": dict(
         category="proof",
         text=("Every expanded coupling solution is executed in a Laurent-series ring in the reference coupling with u = beta0*ref*t held O(1): value at "
